@@ -44,12 +44,28 @@ WRITER_DEVS = {"StaleTipNumbering", "FirstCommitNotRolledBack"}
 
 def c04(ctx):
     quick = ctx.quick()
-    maxlen = 3 if quick else 4
     nq = 60 if quick else 250
+    # every chain up to 3 entries with every single-point corruption (4 entries: > 1 h on 16 cores, measured; not used)
     mc = model_check(ctx, "MC_RSLQuery", dict(
-        constants={"MaxLen": maxlen, "Dev": set(), "Tamper": True, "EmitLen": 0},
+        constants={"MaxLen": 3, "Dev": set(), "Tamper": True, "EmitLen": 0},
         invariants=["ReadersRefineScan"], constraints=["Emit"]), timeout=7200)
     scns = [r for r in mc.records if r.get("t") == "SCN"]
+    if not quick:
+        # beyond the exhaustive bound: random chains of up to 6 entries (and their corruptions) in simulation mode; the
+        # refinement invariant is evaluated on every state visited, chains of 5 entries and more are replayed
+        r = run_tlc(ctx, "MC_RSLQuery", dict(constants={"MaxLen": 6, "Dev": set(), "Tamper": True, "EmitLen": 5},
+                                             invariants=["ReadersRefineScan"], constraints=["Emit"]),
+                    workers=8, sim="num=25", extra=["-depth", "8", "-seed", str(ctx.seed + 3)], timeout=7200)
+        if r.violated:
+            raise Infra("specification error: %s violated on a random long chain (see %s)" % (r.violated, r.out_path))
+        if r.error:
+            raise Infra("TLC error in simulation: %s" % r.error)
+        seen = set()
+        for x in r.records:
+            k = json.dumps(x, sort_keys=True)
+            if x.get("t") == "SCN" and k not in seen:
+                seen.add(k)
+                scns.append(x)
     if not scns:
         raise Infra("TLC emitted no scenarios")
     scn_path = os.path.join(ctx.scratch, "scn.ndjson")
@@ -68,8 +84,10 @@ def c04(ctx):
                       dev=r.get("dev"))
     tally.nontrivial = set(range(len(cls)))
     samples = [{"chain": scns[0]["chain"], "queries_run": nq}, {"chain": scns[-1]["chain"], "tampered": scns[-1]["tampered"]}]
-    return finish(ctx, tally, samples=samples, traces=len(cls), exhaustive=quick is False,
-                  assumptions=["chains are written with an independent serialiser directly into an in-memory "
+    return finish(ctx, tally, samples=samples, traces=len(cls), exhaustive=True,
+                  assumptions=["every chain of up to 3 entries with every single-point corruption is model-checked and replayed; the thorough "
+                               "tier adds random chains of up to 6 entries from TLC's simulation mode",
+                               "chains are written with an independent serialiser directly into an in-memory "
                                "Git-format object store (harness/memstore) that pkg/rsl reads through gitstore.Storer",
                                "query options are sampled per chain with VERIF_SEED (%d per chain)" % nq])
 
